@@ -11,7 +11,7 @@ class TLCError(Exception):
 
 
 def _java(extra_props=(), heap="4g"):
-    return ["java", "-XX:+UseParallelGC", f"-Xmx{heap}", f"-DTLA-Library={LIB}"] + list(extra_props) + ["-cp", JAR]
+    return ["java", "-XX:+UseParallelGC", "-Xss64m", f"-Xmx{heap}", f"-DTLA-Library={LIB}"] + list(extra_props) + ["-cp", JAR]
 
 
 def sany(path):
